@@ -350,6 +350,11 @@ def run_batch(prop_id, tier, seed, runs=None, workers=None, max_wall=None, selft
         f"{prop_id} {tier}: {ev['coverage']['evaluations']} runs, {ev['coverage']['distinct_nontrivial']} distinct non-trivial, "
         f"{len(reports)} violation classes, {sum(known_hits.values())} known-finding hits, {wall:.1f}s"
     )
+    # a violation that was minimised and reproduced by its replay file in a fresh process stands on its own,
+    # whatever else went wrong in the batch (e.g. a library change that keeps state across runs trips the
+    # determinism self-test AND produces history-dependent violations)
+    if any(rep.get("replay_reproduced") or rep.get("note") for _, rep in reports):
+        return 1
     if harness_errors:
         return 2
     if reports:
